@@ -87,6 +87,8 @@ def _sig(case: dict, lines: List[str], i: int, complaints: List[str]) -> dict:
     sig = {"kind": "model-vs-impl", "family": fam, "op": d["op"], "host": case.get("host") or case.get("kind")}
     if d["list"]:
         sig["list"] = d["list"]
+    if "neardup" in case:
+        sig["neardup_field"] = case["neardup"]["field"]
     return sig
 
 
@@ -123,7 +125,11 @@ def run(ctx: Ctx):
         ctx.extract("Acl", x_acl.emit)
         ctx.extract("AclMatch", x_acl.emit_match)
         ctx.extract("AclState", x_acl.emit_state)
-        ctx.prove(MODULES, exes=[EXE], clean=False, leanchecker=ctx.thorough)
+        proved = ctx.prove(MODULES, exes=[EXE], clean=False, leanchecker=ctx.thorough)
+    # search stage: a broken extractor / C07_gen_* obligation says the source changed shape; the families aimed at the classes of
+    # change seen so far (near-duplicate overwrites, reassigned defaults) are then run at three times the volume
+    broken_tie = (not proved) or any(not o["ok"] for o in ctx.obligations)
+    boost = 3 if broken_tie else 1
     ctx.cov["rule"] = ("cases: family `list` = (surface in {python api, request api, agent action, Router.from_config}, implicit action, op "
                        "sequence of add/remove/check over a covering address/mask/port/protocol domain); family `obj` = one list object "
                        "(bare with constructor arguments / router / one of a firewall's seven) under add/remove by three surfaces, "
@@ -142,6 +148,11 @@ def run(ctx: Ctx):
     rng_o = ctx.rng.fork("acl-obj")
     for k in range(ctx.scale(500, 10000)):
         cases.append((f"obj:{k}", rig_s.gen_obj_case(rng_o, max_ops=ctx.scale(30, 60))))
+    rng_n = ctx.rng.fork("acl-neardup")
+    for k in range(boost * ctx.scale(243, 2430)):
+        cases.append((f"neardup:{k}", rig_s.gen_neardup_case(k, rng_n)))
+    for k in range(boost * ctx.scale(72, 720)):
+        cases.append((f"neardup-dev:{k}", rig_s.gen_dev_neardup_case(k, rng_n)))
     rng_d = ctx.rng.fork("acl-dev")
     for k in range(ctx.scale(150, 3000)):
         cases.append((f"dev:{k}", rig_s.gen_dev_case(rng_d, max_ops=ctx.scale(14, 24))))
@@ -199,6 +210,9 @@ def run(ctx: Ctx):
                 if (case.get("host") or case.get("kind")) == "firewall":
                     fw_lists_edited.add((op["list"], op["surface"]))
                     ctx.count(f"firewall-edit:{op['list']}")
+        if "neardup" in case:
+            nd = case["neardup"]
+            ctx.count(f"near-duplicate overwrite: field {nd['field']}" + (f" via {nd['surface']}" if "surface" in nd else " (device, real pings)"))
         if fam == "dev":
             for k, v in case.get("_stats", {}).items():
                 if k == "raised":
@@ -208,7 +222,7 @@ def run(ctx: Ctx):
                     ctx.count("dev:" + k, v)
         if impl == model and not complaints:
             agree += 1
-            if name.startswith(("gen:", "obj:", "dev:")):
+            if name.startswith(("gen:", "obj:", "dev:", "neardup:")):
                 ctx.sample({"case": name, "family": fam, "lines": lines[:10], "answers": model[:10]}, cap=6)
             continue
         # disagreement on a property observable: the model is proved to meet C07, so the trace is a failing input. Shrink it
